@@ -76,8 +76,34 @@ impl Property for C04 {
         let readable: Vec<String> =
             built.sigs.iter().filter(|s| s.is_output() && is_ident(&s.name)).map(|s| s.name.clone()).collect();
         let rows = instrument(&mut built, &mut Ch::new(&s[1]), NPROBES, ProbePref::Device, &readable);
-        let text = built_text(&built);
         let mut dch = Ch::new(&s[2]);
+        // One case in five ends with: `loop(pl, 1)` / `let pw = 1;` / `while(pw)` / `let Q = 77;` / `let pw = 0;` /
+        // `end while` / a row of literals whose first probe is `(Q)` / `end loop`, Q being an output. `while` opens no
+        // scope: behind `end while` the variable Q is still there and takes precedence over the device's Q (100..105).
+        // (The row carries tag 0; it is the last statement, so everything before it is judged as usual.)
+        let planted_q: Option<String> = if !readable.is_empty() && Ch::new(&s[1]).chance(1, 5) {
+            let q = readable[dch.upto(readable.len())].clone();
+            let es: Vec<Entry> = built
+                .cols
+                .iter()
+                .map(|c| if c.name == "PR0" { Entry::Paren(Expr::var(&q)) } else if c.role == ColRole::ExpectedOnly { Entry::X(true) } else { Entry::Num(0, Radix::Dec) })
+                .collect();
+            let id = built.prog.row_count();
+            built.prog.stmts.push(Stmt::Loop(
+                "pl".into(),
+                Expr::lit(1),
+                vec![
+                    Stmt::Let("pw".into(), Expr::lit(1)),
+                    Stmt::While(Expr::var("pw"), vec![Stmt::Let(q.clone(), Expr::lit(77)), Stmt::Let("pw".into(), Expr::lit(0))]),
+                    Stmt::Row(id, es),
+                ],
+            ));
+            built.analysis = analyse(&built.prog);
+            Some(q)
+        } else {
+            None
+        };
+        let text = built_text(&built);
         let must = built.must_supply();
         let mut spec = gen_spec(
             &mut dch,
@@ -258,6 +284,18 @@ impl Property for C04 {
             {
                 {
                     let Some(InVal::Val(tag)) = row.inputs.iter().find(|e| e.0 == "TAG").map(|e| e.1) else { break };
+                    if let (0, Some(q), false) = (tag, &planted_q, is_failed) {
+                        out.class("variable-bound-in-a-while-body-probed-behind-it");
+                        let shown = row.inputs.iter().find(|e| e.0 == "PR0").map(|e| e.1);
+                        if shown != Some(InVal::Val(77)) {
+                            out.fail(
+                                "c04:variable-does-not-take-precedence",
+                                format!("the program ends with `loop(pl, 1) let pw = 1; while(pw) let {q} = 77; let pw = 0; end while / a row whose first probe is ({q}) / end loop`: `while` opens no scope, the variable {q} is in scope behind `end while` and takes precedence over the output of that name; the probe shows {shown:?}"),
+                            );
+                            return out;
+                        }
+                        break;
+                    }
                     let Some(info) = rows.get(&((tag - 1) as usize)) else { break };
                     if desync {
                         match desync_tag {
